@@ -14,16 +14,27 @@ import (
 
 type c06Stage struct {
 	stage, mode string
-	fails       bool // make some elements fail (StdErr variants, Try mode)
+	fails       bool // make some elements fail (StdErr variants, Try mode, fail-fast)
 	source      bool
+	noErr       bool // nobody ever receives from the error output
 }
 
 var c06Stages = []c06Stage{
-	{"Map", "pure", false, false}, {"Map+StdErr", "try", true, false}, {"FMap", "lift", false, false}, {"FMap+StdErr", "try", true, false},
-	{"Filter", "pure", false, false}, {"ForEach", "pure", false, false}, {"Void", "pure", false, false}, {"Fold", "pure", false, false},
-	{"Partition", "pure", false, false}, {"Join", "pure", false, false}, {"Take", "pure", false, false}, {"TakeWhile", "pure", false, false},
-	{"Throttling", "pure", false, false},
-	{"Emit", "pure", false, true}, {"Unfold", "pure", false, true}, {"Emit+StdErr", "try", true, true},
+	{"Map", "pure", false, false, false}, {"Map+StdErr", "try", true, false, false}, {"FMap", "lift", false, false, false}, {"FMap+StdErr", "try", true, false, false},
+	{"Filter", "pure", false, false, false}, {"ForEach", "pure", false, false, false}, {"Void", "pure", false, false, false}, {"Fold", "pure", false, false, false},
+	{"Partition", "pure", false, false, false}, {"Join", "pure", false, false, false}, {"Take", "pure", false, false, false}, {"TakeWhile", "pure", false, false, false},
+	{"Throttling", "pure", false, false, false},
+	{"Emit", "pure", false, true, false}, {"Unfold", "pure", false, true, false}, {"Emit+StdErr", "try", true, true, false},
+	// fail-fast failures, with and without a reader on the error output
+	{"Map", "lift", true, false, true}, {"Map", "lift", true, false, false}, {"FMap", "lift", true, false, true}, {"Map", "try", true, false, true},
+	{"Emit", "lift", true, true, true}, {"Unfold", "lift", true, true, true}, {"Emit", "try", true, true, true},
+}
+
+func (st c06Stage) site() string {
+	if st.mode == "pure" || st.stage == "Map+StdErr" || st.stage == "FMap+StdErr" || st.stage == "Emit+StdErr" || (st.stage == "FMap" && !st.fails) {
+		return st.stage
+	}
+	return st.stage + "/" + st.mode
 }
 
 func cancelBound(c *caseT) int {
@@ -34,6 +45,12 @@ func cancelBound(c *caseT) int {
 		// more error of a failing index to the error channel: cap + 2, plus one per failing index
 		// and per error-buffer slot in Try mode.
 		return 2*c.Cap + 2 + len(c.Fail)
+	case "Unfold":
+		if c.Delay > 0 {
+			// the step function sleeps (less than a tick): one tick for the call in progress, then at most one
+			// more value per free buffer slot, each followed by another call
+			return c.Cap + 2
+		}
 	}
 	return 0
 }
@@ -60,6 +77,9 @@ func genC06(t *testing.T) {
 		}
 		if hasMove(c.Script, 'X') {
 			c.End = "cancel"
+			if n%3 == 0 {
+				c.End = "cancel-drain" // consumers keep draining after cancel instead of going away
+			}
 		} else if !isSource(c.Stage) {
 			c.End = "complete"
 		} else {
@@ -75,7 +95,7 @@ func genC06(t *testing.T) {
 				continue
 			}
 			for ln := 0; ln <= maxLen; ln++ {
-				base := &caseT{Site: st.stage, Stage: st.stage, Cap: cp, Mode: st.mode, Monoid: "poly", Tick: tick, FSeed: uint64(ln + cp)}
+				base := &caseT{Site: st.site(), Stage: st.stage, Cap: cp, Mode: st.mode, Monoid: "poly", Tick: tick, FSeed: uint64(ln + cp)}
 				var seqs [][]string
 				switch {
 				case st.source:
@@ -87,8 +107,11 @@ func genC06(t *testing.T) {
 						base.Fail = []int{1}
 					}
 					seqs = [][]string{rep("R0", ln), rep(fmt.Sprintf("A%d", tick), ln), {"X"}}
-					if st.stage != "Emit+StdErr" {
+					if st.stage != "Emit+StdErr" && !st.noErr {
 						seqs = append(seqs, []string{"E0"})
+					}
+					if st.stage == "Unfold" && st.fails {
+						base.Fail = []int{base.next(base.N)} // the second application of f fails
 					}
 				case st.stage == "Join":
 					l2 := ln / 2
@@ -106,7 +129,7 @@ func genC06(t *testing.T) {
 						base.N = 1
 					}
 					seqs = append([][]string{append(rep("S0", ln), "C0")}, consumerSeqs(st.stage, min(ln, 2))...)
-					if st.stage == "Map+StdErr" || st.stage == "FMap+StdErr" {
+					if st.stage == "Map+StdErr" || st.stage == "FMap+StdErr" || st.noErr {
 						seqs = [][]string{append(rep("S0", ln), "C0"), rep("R0", min(ln, 2))}
 					}
 					if st.stage == "Throttling" {
@@ -139,7 +162,7 @@ func genC06(t *testing.T) {
 		st := c06Stages[r.IntN(len(c06Stages))]
 		cp := r.IntN(6)
 		ln := r.IntN(25)
-		c := &caseT{Site: st.stage, Stage: st.stage, Cap: cp, Mode: st.mode, Monoid: "poly", Tick: tick, FSeed: r.Uint64() % 100000}
+		c := &caseT{Site: st.site(), Stage: st.stage, Cap: cp, Mode: st.mode, Monoid: "poly", Tick: tick, FSeed: r.Uint64() % 100000}
 		var seqs [][]string
 		switch {
 		case st.source:
@@ -152,8 +175,15 @@ func genC06(t *testing.T) {
 				}
 			}
 			seqs = [][]string{rep("R0", r.IntN(ln+1)), rep(fmt.Sprintf("A%d", tick), r.IntN(ln+2))}
-			if st.stage != "Emit+StdErr" {
+			if st.stage != "Emit+StdErr" && !st.noErr {
 				seqs = append(seqs, rep("E0", r.IntN(2)))
+			}
+			if st.stage == "Unfold" && st.fails {
+				x := c.N
+				for k := r.IntN(6); k > 0; k-- {
+					x = c.next(x)
+				}
+				c.Fail = []int{x}
 			}
 		case st.stage == "Join":
 			ni := 1 + r.IntN(4)
@@ -189,7 +219,7 @@ func genC06(t *testing.T) {
 			}
 			seqs = append(seqs, p)
 			cs := consumerSeqs(st.stage, r.IntN(ln+2))
-			if st.stage == "Map+StdErr" || st.stage == "FMap+StdErr" {
+			if st.stage == "Map+StdErr" || st.stage == "FMap+StdErr" || st.noErr {
 				cs = cs[:1]
 			}
 			seqs = append(seqs, cs...)
